@@ -496,13 +496,15 @@ where
             });
         }
 
-        let qual_len = self.buf_pos.pos.1 - self.buf_pos.qual + 1;
-        let seq_len = self.buf_pos.sep - self.buf_pos.seq;
+        // compare the lengths without line terminators: the quality line may lack
+        // its terminator at the end of the input, also in files with CRLF endings
+        let seq_len = self.buf_pos.seq(self.get_buf()).len();
+        let qual_len = self.buf_pos.qual(self.get_buf()).len();
         if seq_len != qual_len {
             self.state = State::Finished;
             return Err(Error::UnequalLengths {
-                seq: self.buf_pos.seq(self.get_buf()).len(),
-                qual: self.buf_pos.qual(self.get_buf()).len(),
+                seq: seq_len,
+                qual: qual_len,
                 pos: self.get_error_pos(0, true),
             });
         }
